@@ -199,12 +199,12 @@ Lemma served_stream s (Hs : no_none (k_chunks s) = true) b :
   (0 < sv_reads (serve b))%nat /\ sv_closes (serve b) = (if k_has_close s then 1 else 0)%nat.
 Proof.
   intros [[-> K] | [[-> | ->] K]]; unfold serve, is_file; rewrite K.
-  - destruct (drain_bytes false (k_chunks s) (k_raises s) Hs) as [E P].
-    destruct (drain false (k_chunks s) (k_raises s)) as [[cs r] n]. simpl in *. auto.
-  - destruct (drain_bytes true (k_chunks s) (k_raises s) Hs) as [E P].
-    destruct (drain true (k_chunks s) (k_raises s)) as [[cs r] n]. simpl in *. auto.
-  - destruct (drain_bytes true (k_chunks s) (k_raises s) Hs) as [E P].
-    destruct (drain true (k_chunks s) (k_raises s)) as [[cs r] n]. simpl in *. auto.
+  - destruct (drain_bytes false (k_chunks s) (raises_b s) Hs) as [E P].
+    destruct (drain false (k_chunks s) (raises_b s)) as [[cs r] n]. simpl in *. auto.
+  - destruct (drain_bytes true (k_chunks s) (raises_b s) Hs) as [E P].
+    destruct (drain true (k_chunks s) (raises_b s)) as [[cs r] n]. simpl in *. auto.
+  - destruct (drain_bytes true (k_chunks s) (raises_b s) Hs) as [E P].
+    destruct (drain true (k_chunks s) (raises_b s)) as [[cs r] n]. simpl in *. auto.
 Qed.
 
 Local Opaque finish_headers.
@@ -562,7 +562,7 @@ Proof.
         -- (* a response stream, inside try/finally *)
            destruct (send_ok fa 0) eqn:S0.
            ++ destruct (stream_loop (match k_kind s with KFile => true | KIter => false end)
-                          (k_chunks s) (k_raises s) fa 1) as [[[ev r] rd] n] eqn:E.
+                          (k_chunks s) (raises_b s) fa 1) as [[[ev r] rd] n] eqn:E.
               destruct (stream_loop_spec _ _ _ _ _ _ _ _ _ E) as (Hall & Hrd & rest & Hsb & Hrest).
               assert (Hclose : forall rd', rd' = rd ->
                         close_ok i rd' (if k_has_close s then 1 else 0) = true).
@@ -741,4 +741,17 @@ Proof.
   remember (input_of_session l head status stream clen wrapper) as i.
   destruct (latest_values l) as [[t d] m]. injection H as H1 H2 H3.
   unfold render_body. rewrite H1, H2, H3. reflexivity.
+Qed.
+
+(* close_once for EVERY kind of failure: an Exception, a BaseException or a cancellation, coming
+   from the stream (read()/__anext__) or from the server's send (raised, or the task cancelled
+   while parked in it), at every point - the `finally` is what makes it true *)
+Theorem close_once_all_faults i (fa : option (nat * fault)) o :
+  status_wf (i_status i) = true -> typeless_media i = false ->
+  asgi_emit_f i fa = Some o ->
+  close_ok i (ao_reads o) (ao_closes o) = true /\ events_ok i o = true /\ oracle_asgi i o = [].
+Proof.
+  intros Hwf Htm He. unfold asgi_emit_f in He.
+  destruct (close_once_asgi i _ o Hwf Htm He) as [C E].
+  repeat split; auto. exact (asgi_framing i _ o Hwf Htm He).
 Qed.
